@@ -161,8 +161,10 @@ const ALIAS_TABLES: &[&[(&str, &str, bool)]] = &[
     &[("a", "if", false), ("b", "then", false), ("c", "fi", false)],
     &[("a", "! a", false), ("b", "( b", false), ("c", "{ c; }", true)],
     &[("a", "for a in a", true), ("b", "case b in b", true), ("c", "<c", true)],
+    // replacements shorter and longer than the name, next to command substitutions
+    &[("abc", "x", false), ("a", "abc $(x) ", false), ("b", "", false), ("c", "x $(abc) y", false)],
 ];
-const ALIAS_TOKENS: &[&str] = &["a", "b", "c", "x", "!", ";", "|", "&&", "(", ")", "{", "}", "if", "then", "fi", "<f", ">c", "for", "in", "do", "done", "case", "esac", "\n", "a=1", "'a'"];
+const ALIAS_TOKENS: &[&str] = &["a", "b", "c", "x", "!", ";", "|", "&&", "(", ")", "{", "}", "if", "then", "fi", "<f", ">c", "for", "in", "do", "done", "case", "esac", "\n", "a=1", "'a'", "abc", "$(c d)", "\"$(a)\""];
 
 /// (opener, innermost text, closer) of the towers of nested constructs.
 const TOWERS: &[(&str, &str, &str, &str)] = &[
@@ -592,7 +594,7 @@ pub fn run(tier: Tier) -> i32 {
         "character_classes": classes.len(),
         "evaluations": counters.inputs.load(Relaxed) + counters.roundtrips.load(Relaxed),
         "distinct_nontrivial": counters.roundtrips.load(Relaxed),
-        "rule": format!("(a) every sequence of <= {tmax} tokens over {} tokens (words with every expansion kind, assignments, all reserved words, all operators, redirections with and without fd, here-document operators with a body, unclosed quotes / $( / ${{ / ` / $(( / $', comment, function headers); (b) every script of the scripted-test corpus ({} scripts) plus every single-token deletion, adjacent swap and truncation (and every character truncation of short ones); (c) every string of length <= {} over 25 raw characters incl. multi-byte; (d) lexer contexts with one hole x all 128 ASCII characters and Unicode class representatives, and with two adjacent holes; (e) every sequence of <= 3/4 tokens over 26 tokens parsed with each of 8 alias tables (self-recursive, mutually recursive, blank-ending chains, global aliases incl. self-referencing and cyclic ones, aliases producing reserved words and operators): the parser must terminate without panic; (f) towers of 9 nested constructs at every depth 1..12 in-process and at depths 30 and 100000 in a subprocess with a wall-clock limit; (g) here-documents `c <<D` / `c <<-D` for 11 delimiter spellings (plain, quoted in every style, empty, containing a blank, non-ASCII, partly quoted) x every body of <= 3/4 lines over ~14 lines built around the delimiter (itself, doubled, with a blank before / after, with leading tabs, a prefix, empty, tab-only) x 3 shapes (terminated and followed by a command, ending at the delimiter without newline, unterminated): content, the commands that follow, the error for an unterminated body, and the number of lines pulled from a counting line-by-line input when the command is returned (no read-ahead) against XCU 2.7.4 by hand; (h) read-ahead minimality: for every multi-line token sequence and corpus script the parser is fed line by line, and a command returned after line k must not be obtainable, identical, from the input cut after line k-1 (except after a backslash-newline). Every input must make the parser return Ok or Err without panic/hang; for every Ok tree without here-documents the printed text must parse to a structurally equal tree (Debug rendering with all Locations erased), in the default parsing mode and with the `portable` option on. Non-trivial = inputs that parsed and were round-tripped.", TOKENS.len(), scripts.len(), tier.pick(3, 4)),
+        "rule": format!("(a) every sequence of <= {tmax} tokens over {} tokens (words with every expansion kind, assignments, all reserved words, all operators, redirections with and without fd, here-document operators with a body, unclosed quotes / $( / ${{ / ` / $(( / $', comment, function headers); (b) every script of the scripted-test corpus ({} scripts) plus every single-token deletion, adjacent swap and truncation (and every character truncation of short ones); (c) every string of length <= {} over 25 raw characters incl. multi-byte; (d) lexer contexts with one hole x all 128 ASCII characters and Unicode class representatives, and with two adjacent holes; (e) every sequence of <= 3/4 tokens over 26 tokens parsed with each of 9 alias tables (self-recursive, mutually recursive, blank-ending chains, global aliases incl. self-referencing and cyclic ones, aliases producing reserved words and operators): the parser must terminate without panic; (f) towers of 9 nested constructs at every depth 1..12 in-process and at depths 30 and 100000 in a subprocess with a wall-clock limit; (g) here-documents `c <<D` / `c <<-D` for 11 delimiter spellings (plain, quoted in every style, empty, containing a blank, non-ASCII, partly quoted) x every body of <= 3/4 lines over ~14 lines built around the delimiter (itself, doubled, with a blank before / after, with leading tabs, a prefix, empty, tab-only) x 3 shapes (terminated and followed by a command, ending at the delimiter without newline, unterminated): content, the commands that follow, the error for an unterminated body, and the number of lines pulled from a counting line-by-line input when the command is returned (no read-ahead) against XCU 2.7.4 by hand; (h) read-ahead minimality: for every multi-line token sequence and corpus script the parser is fed line by line, and a command returned after line k must not be obtainable, identical, from the input cut after line k-1 (except after a backslash-newline). Every input must make the parser return Ok or Err without panic/hang; for every Ok tree without here-documents the printed text must parse to a structurally equal tree (Debug rendering with all Locations erased), in the default parsing mode and with the `portable` option on. Non-trivial = inputs that parsed and were round-tripped.", TOKENS.len(), scripts.len(), tier.pick(3, 4)),
         "samples": samples.take(),
         "token_sequence_inputs": token_inputs,
         "corpus_scripts": scripts.len(),
